@@ -33,6 +33,7 @@ type scen struct {
 	wait  []bool // seq/illegal: before call k, wait until the replies to the calls so far were handled ('~')
 	drain []bool // seq: before call k, wait (public API WaitSendQueueDrained) until sendLoop has taken the calls so far ('^'): call k starts a new batch
 	slow  bool   // the peer is a slow reader: writes to the connection block (TCP back-pressure) until every call was issued
+	bp    bool   // back-pressure as an environment choice: any single connection write may find the window shut (one deviation) and blocks, with every later write, until every call was issued
 	owner []int  // race: which goroutine (0/1) issues slot k (each goroutine issues its slots in slot order, back-to-back)
 }
 
@@ -51,11 +52,18 @@ func clone(m protocol.Message) protocol.Message {
 type gatedConn struct {
 	*rt.Conn
 	window chan struct{}
+	choice bool // the window is open until the environment shuts it at some write
+	shut   bool
 }
 
 func (c *gatedConn) Write(b []byte) (int, error) {
 	if c.window != nil {
-		rt.Recv2("h:window?", c.window)
+		if c.choice && !c.shut && rt.Choice("h:socket-buffer-full", 2) == 1 {
+			c.shut = true
+		}
+		if !c.choice || c.shut {
+			rt.Recv2("h:window?", c.window)
+		}
 	}
 	return c.Conn.Write(b)
 }
@@ -208,10 +216,10 @@ func scenario(id string, sc scen, last bool) e1lib.Scenario {
 		}
 		// a slow reader: the local side's connection writes block until the window opens
 		var window chan struct{}
-		if sc.slow {
+		if sc.slow || sc.bp {
 			window = make(chan struct{})
 		}
-		ep := newEndpoint(&gatedConn{Conn: a, window: window}, cfg)
+		ep := newEndpoint(&gatedConn{Conn: a, window: window, choice: sc.bp}, cfg)
 		errDone := make(chan struct{})
 		stopped := make(chan struct{})
 		rt.Go("errs", func() {
@@ -314,7 +322,7 @@ func scenario(id string, sc scen, last bool) e1lib.Scenario {
 				issue(k)
 			}
 		}
-		if sc.slow {
+		if sc.slow || sc.bp {
 			// the peer starts reading only now
 			vtime.Sleep(10 * time.Millisecond)
 			rt.Close("h:window", window)
@@ -624,8 +632,10 @@ func uniform(w []bool) bool {
 //	  prefix bound 1
 //
 // Streaming servers (block-fetch, chain-sync; responder "first"): every conforming history,
-// all-'+' and all-'^', normal connection and slow reader: bound 1; thorough: block-fetch server
-// on the normal connection up to 3 calls bound 2.
+// all-'+' and all-'^'; towards a slow reader (all connection writes block until every call was
+// issued): canonical schedule (thorough bound 1); normal connection, where "this write finds the
+// socket buffer full" is an environment answer costing one deviation: bound 1 (thorough:
+// block-fetch server up to 2 calls bound 2).
 func generate(thorough bool) []e1lib.Scenario {
 	var heavy, light []e1lib.Scenario
 	maxLen := 3
@@ -757,7 +767,7 @@ func generate(thorough bool) []e1lib.Scenario {
 					continue
 				}
 				for _, slow := range []bool{false, true} {
-					sc := scen{kind: "seq", calls: h, wait: make([]bool, n), slow: slow}
+					sc := scen{kind: "seq", calls: h, wait: make([]bool, n), slow: slow, bp: !slow}
 					if drained {
 						sc.drain = make([]bool, n)
 						for k := 1; k < n; k++ {
@@ -765,7 +775,10 @@ func generate(thorough bool) []e1lib.Scenario {
 						}
 					}
 					bound := 1
-					if thorough && !slow && n <= 3 && strings.HasPrefix(id, "block-fetch") {
+					if slow && !thorough {
+						bound = 0
+					}
+					if thorough && !slow && n <= 2 && strings.HasPrefix(id, "block-fetch") {
 						bound = 2
 					}
 					s := scenario(id, sc, false)
